@@ -921,6 +921,24 @@ def nested_list_part(h):
                 h.nontrivial(sig)
 
 
+def dashed_name_part(h):
+    """E8: an option whose name has a dash (its key has an underscore): the `+` spelling of that option appends like any other."""
+    from jsonargparse import ArgumentParser
+
+    for name in ("my-list", "my_list", "a-b-c"):
+        for seq, want in (((name + "+=2",), [1, 2]), ((name + "+=2", name + "+=[3, 4]"), [1, 2, 3, 4]), ((name + "=[7]", name + "+=8"), [7, 8])):
+            try:
+                with quiet():
+                    p = ArgumentParser(exit_on_error=False)
+                    p.add_argument("--" + name, type=List[int], default=[1])
+                    got = getattr(p.parse_args(["--" + x for x in seq]), name.replace("-", "_"))
+            except BaseException as ex:  # noqa
+                got = "raised %s: %s" % (type(ex).__name__, str(ex)[:100].replace("\n", " "))
+            sig = "c04:option-name-with-a-dash:%s:%s" % ("dashed" if "-" in name else "plain", ",".join("+" if "+=" in x else "=" for x in seq))
+            h.check(got == want, sig + (":raised" if isinstance(got, str) else ":wrong-value"), "--%s: expected %r, got %r" % (name, want, got), {"option": "--" + name + ": List[int] = [1]", "argv": ["--" + x for x in seq]})
+            h.nontrivial(sig)
+
+
 def main():
     h = Harness("b04_precedence", rule="one evaluation = one parse of one chain of sources compared, key by key, with the reference fold; "
                 "distinct non-trivial = distinct (method, env mode, prefix, chain descriptor) with at least one source besides the defaults")
@@ -943,6 +961,7 @@ def main():
         collect(h, map(run_chunk, chunks))
     relative_patterns_part(h)
     nested_list_part(h)
+    dashed_name_part(h)
     if h.thorough:
         bound = ("0-3 default config files in %d layouts (direct paths, a glob whose listing order differs from the sorted order, a missing file, an empty file, ~, a '?' glob "
                  "with a non-matching file) x 3-5 contents per file; env config {none, string, file} x 3 contents (+1 without appends); env variables {none, 2 sets, each "
